@@ -38,6 +38,7 @@ class Model:
         self.reg = {}      # component id -> (scope, position, item)
         self.ctor_regs = {}  # scope -> [(pos, ctor id, opts)]
         self.eh_regs = {}    # scope -> [(pos, eh id)]
+        self.imports_pavex = any(h.get("path_params") is not None for h in spec["handlers"].values())
         self._walk(spec["bp"], (), None, "", None)
 
     # ------------------------------------------------------------------ structure
@@ -201,6 +202,10 @@ class Model:
                         found = c[-1]
                         break
             res.add(found or "DEFAULT")
+            if found and self.spec["ehs"][found]["err"] == "pavex" and self.imports_pavex:
+                # `bp.import(from![pavex])` (needed for PathParams) also brings in the framework's own handler for
+                # pavex::Error; the documentation does not say which of the two registrations wins
+                res.add("DEFAULT")
         return res
 
     # ------------------------------------------------------------------ execution order
